@@ -42,6 +42,10 @@ CHECKS['C04'] = dict(engine='W-loop', level='exploration', design='5/C04',
    text='seeded search over limit configurations (evaluation cost, call depth, stack size, array/mapping/string/buffer sizes drawn small) crossed with spenders that are infinite by construction (every loop form, direct/mutual recursion, recursion through function pointers, efun callbacks, call_other, catch) and unbounded builders (operators and efuns that double strings, arrays, mappings, buffers), run as commands, heart beats, call_outs, input_to callbacks and create() with 0-3 catch levels around them; monitors at every instruction (call depth, stack height, size of the value on top of the stack) plus oracles: the run ends, the statement after an infinite spender or its enclosing catch never runs, every limit hit is reported, builder results respect the limits, the next task is served. Sampling, not proof.',
    note='set_eval_limit/reset_eval_cost excluded; the builder list samples the operator/efun surface (one known finding: sprintf is bounded by its 64 KiB buffer, not by MaxStringLength)',
    technique='deterministic simulation with fault injection (randomised limit configurations, limit exhaustion at arbitrary points of seeded task kinds, per-instruction invariant monitors)')
+CHECKS['C19'] = dict(engine='T', level='exploration', design='5/C19',
+   text='seeded search over thread schedules: the real lib/async (runtime, queue, worker, console worker) and lib/port (timer, sync) code runs on real threads that a seeded scheduler releases one at a time at every intercepted synchronisation or blocking call (mutex, condition variable incl. spurious wake-ups, eventfd, epoll, stdin, sleep, clock are modelled, timed waits use a virtual clock, no runnable thread and no deadline is a detected deadlock); scenarios: concurrent completion posts/wake-ups vs. the waiting backend, multi-producer queue under every overflow policy, worker create/stop/join/destroy at every point of its life, timer start/stop/cleanup, console worker with EOF and shutdown; oracles: every completion delivered exactly once with its own key and data, pending notification ends a wait, per-producer FIFO and conservation for the queue, stop/join/cleanup terminate within virtual-time bounds, no callback after stop returns; a second batch runs the same generator on a ThreadSanitizer build for the race clause. Sampling, not proof.',
+   note='the poll and IOCP back ends are not built on Linux and not covered; the driver globals touched by the timer callback (heart_beat_flag) are not linked into this engine; TSan sees lib/async and lib/port only, the simulator annotates the sync objects it models',
+   technique='deterministic simulation with fault injection (real threads serialised by a seeded scheduler at intercepted sync points, virtual clock, ThreadSanitizer batch)')
 PENDING = 'check not built yet (work in progress, see DESIGN.md section 10)'
 
 def main():
@@ -72,6 +76,8 @@ def main():
                   'baseline_off_cmd': 'cd /repo && cmake -G Ninja -B _build >/dev/null && cmake --build _build >/dev/null && ctest --test-dir _build -j8 --timeout 900',
                   'source_commits': hooks_commits, 'add_only': True},
         'engines': [
+            {'name': 'T', 'path': 'tsim/tsim.cpp', 'serves_properties': ['C19'],
+             'kind_free_text': 'thread simulator: real lib/async + lib/port code on real pthreads, exactly one runnable at a time, seeded choice at every intercepted pthread/eventfd/epoll/sleep/clock call, virtual time, deadlock detection; ASan and TSan variants'},
             {'name': 'W-loop', 'path': 'sim/nsim.cpp sim/kernel.cpp', 'serves_properties': sorted(p for p in CHECKS if CHECKS[p]['engine'].startswith('W')),
              'kind_free_text': 'whole driver (compiler, interpreter, efuns, backend loop, comm layer) in one process under a simulated kernel (sockets, epoll, eventfd, console), virtual clock and plan-driven timer; one plan = one forked child; seeded plans from the Python orchestrator (vlib/)'},
         ],
